@@ -70,7 +70,7 @@ func checkC11(e *Env) {
 	e.requireGates("GATE", eb, o, noCfg, hd, bd)
 	e.callOrder("ORDER", "head-before-body", eb, gate.CallInstr("", "(*cbor.Encoder).encodeTypedUint", "param:e", "param:t", "*"), gate.CallInstr("", "invoke:io.Writer.Write", "param:e.w", "param:bs"), "the head precedes the content")
 	ebool := e.fn("internal/cbor.(*Encoder).EncodeBool")
-	e.requireStore("RESULT", ebool, "alloc:[1]byte[const:0]", "(const:224 | phi(const:20|const:21))", "major type 7 with simple value 20/21")
+	e.requireStore("RESULT", ebool, "alloc:[1]byte[const:0]", "(phi(const:20|const:21) | const:224)", "major type 7 with simple value 20/21")
 	for _, v := range []struct{ val, want string }{{"true", "const:21"}, {"false", "const:20"}} {
 		ctx := gate.New(e.P, e.P.VTA(), gate.Assumption{ProvPat: "param:b", Value: v.val})
 		got := ctx.PhiUnder(ebool, "ai")
